@@ -544,6 +544,86 @@ func (e *Engine) collect(g *Graph, target int, states []state) []state {
 		}
 		states = e.expand(iff.Cond, r0, states, "", nil, condPos(iff))
 	}
+	states = e.collectImplications(g, target, states)
+	return states
+}
+
+// collectImplications handles rejects guarded by a conjunction
+// (`if A && !B { reject }`): the rejecting test sits in a block that does
+// not dominate the target. For each such block b whose path from the nearest
+// target-dominating ancestor is a chain of single-predecessor blocks, emit
+// the gate  implies(conditions leading to b, accepting outcome of b's test).
+func (e *Engine) collectImplications(g *Graph, target int, states []state) []state {
+	fn := g.Fn
+	reach := g.CanReach(target, -1)
+	for _, bi := range g.order {
+		if bi == target || g.Dominates(bi, target) || !reach[bi] {
+			continue
+		}
+		blk := fn.Blocks[bi]
+		iff, ok := blk.Instrs[len(blk.Instrs)-1].(*ssa.If)
+		if !ok || len(g.Succ[bi]) != 2 {
+			continue
+		}
+		s0, s1 := blk.Succs[0].Index, blk.Succs[1].Index
+		if reach[s0] == reach[s1] {
+			continue
+		}
+		// skip tests inside a loop the target is outside of (forall gates)
+		if l := g.LoopOf(bi); l != nil && !l.Body[target] {
+			continue
+		}
+		// chain of guards from the nearest dominator of target
+		type guard struct {
+			cond ssa.Value
+			want bool
+			pos  token.Pos
+		}
+		var chain []guard
+		cur := bi
+		okChain := true
+		for !g.Dominates(cur, target) {
+			if len(g.Pred[cur]) != 1 {
+				okChain = false
+				break
+			}
+			p := g.Pred[cur][0]
+			pb := fn.Blocks[p]
+			if pif, ok := pb.Instrs[len(pb.Instrs)-1].(*ssa.If); ok && len(g.Succ[p]) == 2 {
+				if pb.Succs[0].Index == cur && pb.Succs[1].Index == cur {
+					okChain = false
+					break
+				}
+				chain = append([]guard{{pif.Cond, pb.Succs[0].Index == cur, condPos(pif)}}, chain...)
+			}
+			cur = p
+		}
+		if !okChain || len(chain) == 0 {
+			continue
+		}
+		var out []state
+		for _, st := range states {
+			var ante *Term
+			for _, gd := range chain {
+				t := e.Eval(gd.cond, st.ctx)
+				if !gd.want {
+					t = Not(t)
+				}
+				if ante == nil {
+					ante = t
+				} else {
+					ante = e.mk(OpBin, "&&", nil, ante, t)
+				}
+			}
+			cons := e.Eval(iff.Cond, st.ctx)
+			if !reach[s0] {
+				cons = Not(cons)
+			}
+			gate := &Gate{Pred: e.mk("implies", "", nil, ante, cons), Pos: condPos(iff), Fn: fn, Ctx: st.ctx}
+			out = append(out, state{append(append([]*Gate{}, st.gates...), gate), st.ctx})
+		}
+		states = out
+	}
 	return states
 }
 
